@@ -1208,7 +1208,7 @@ func seqInts(n int) []int {
 
 func TestRandomSequences(t *testing.T) {
 	ev.SetChecks(ev.Scale(6000, 250000))
-	rapid.Check(t, func(rt *rapid.T) {
+	ev.Check(t, func(rt *rapid.T) {
 		c := genSeqCase(rt)
 		nt, labels := seqLabels(c.Seq)
 		if !run(c, "seq-random", nt, labels, func(string, string) {}) {
@@ -1219,7 +1219,7 @@ func TestRandomSequences(t *testing.T) {
 
 func TestRandomCodec(t *testing.T) {
 	ev.SetChecks(ev.Scale(6000, 250000))
-	rapid.Check(t, func(rt *rapid.T) {
+	ev.Check(t, func(rt *rapid.T) {
 		o := gen.DefaultValOpts
 		o.MappedIP = true
 		a := gen.Value(rt, rapid.IntRange(0, 4).Draw(rt, "depth"), o)
@@ -1273,7 +1273,7 @@ func shuffleValue(rt *rapid.T, v ir.Value) ir.Value {
 
 func TestImmutability(t *testing.T) {
 	ev.SetChecks(ev.Scale(4000, 200000))
-	rapid.Check(t, func(rt *rapid.T) {
+	ev.Check(t, func(rt *rapid.T) {
 		n := rapid.IntRange(2, 24).Draw(rt, "nops")
 		c := &Case{Kind: "hist"}
 		for i := 0; i < n; i++ {
@@ -1328,6 +1328,9 @@ func TestReplay(t *testing.T) {
 	}
 	if err != nil {
 		t.Fatal(err)
+	}
+	if ev.ReplayFuzz(t, rf, fuzzProps, nil) {
+		return
 	}
 	var c Case
 	if err := json.Unmarshal(rf.Case, &c); err != nil || c.Kind == "" {
